@@ -1,4 +1,6 @@
 (* Extraction of the stream-core model (shared by C01, C02, C06, C08, C09). *)
 From Coq Require Import ExtrOcamlBasic.
-From SV Require Import Lib.Bytes Lib.ExtractBase Model.Wire Model.Chan Model.Stream Model.StreamQuiet.
-Extraction "c01_model.ml" extract_anchor world0 step run proxy_pre_select next_channel quiescentb quiescent_eagerb.
+From SV Require Import Lib.Bytes Lib.ExtractBase Model.Wire Model.Chan Model.Stream Model.StreamQuiet Model.StreamLoop.
+Extraction "c01_model.ml" extract_anchor world0 step run proxy_pre_select next_channel quiescentb quiescent_eagerb
+  sleepsb sleepsb_asfound sleeps_eagerb_v sleep_okb_v no_late_stopb iter_events iter_events_asfound ans_realb_v
+  presel_pass_v pass_events iter_rest ans_real_po sleeps_of fd_cand.
